@@ -153,6 +153,8 @@ package dns
 // the octet cannot count, 256 octets or more, is outside the record type)
 //@ func (*NSEC3).parse [C05 C07]
 //@   stored at "rr.SaltLength = " saltlen: len(l.token) < 512 ==> value == len(l.token) / 2 [C05]
+// (five bits per base32hex character, no padding)
+//@   stored at "rr.HashLength = " hashlen: len(l.token) * 5 / 8 < 256 ==> value == len(l.token) * 5 / 8 [C05]
 //@ func (*NSEC3PARAM).parse [C05 C07]
 //@   stored at "rr.SaltLength = " saltlen: len(l.token) < 512 ==> value == len(l.token) / 2 [C05]
 //@ func (*HIP).parse [C05 C07]
